@@ -329,6 +329,24 @@ theorem horizontal_connection_geometry (g : Geo) (m : BlockMap) (bs : List Block
   exact ⟨s0, s1, hs0, hs1, ha, hd0, hd1,
     Proofs.FromGeo.lineProjection_perp _ _ _ hedge, Proofs.FromGeo.lineProjection_perp _ _ _ hedge⟩
 
+/-- The permeability direction of a horizontal connection is the index of the larger component
+    (in absolute value) of the centre-to-centre vector rotated by the permeability angle — 1 on a
+    tie, as `np.argmax` returns the first maximum. -/
+theorem direction_by_permeability_angle (g : Geo) (m : BlockMap) (bs : List Block) (lay : Layer)
+    (k : Conn) (c : TConn) (h : horizConn g m bs lay k = .ok c) :
+    ∃ b0 b1 c0 c1, findBlock bs c.b0 = .ok b0 ∧ findBlock bs c.b1 = .ok b1 ∧
+      b0.centre = some c0 ∧ b1.centre = some c1 ∧
+      (let dx := c1.x - c0.x
+       let dy := c1.y - c0.y
+       let u := absRat (g.rot.x * dx + g.rot.y * dy)
+       let v := absRat (-g.rot.y * dx + g.rot.x * dy)
+       (c.dirn = 2 ↔ u < v) ∧ (c.dirn = 1 ↔ ¬ u < v)) := by
+  obtain ⟨b0, b1, c0, c1, _, _, h0, h1, e0, e1, _, _, hd, _, _, _, _⟩ :=
+    Proofs.FromGeo.horizConn_facts g m bs lay k c h
+  refine ⟨b0, b1, c0, c1, h0, h1, e0, e1, ?_⟩
+  simp only [hd, permDirection, P3.sub]
+  simp
+
 /-- The perpendicular offset is the shortest: no point of the edge line is closer to the column
     centre than the projection; and its squared length is the classical
     `cross(e, c - n0)² / ‖e‖²`. -/
